@@ -236,7 +236,7 @@ for srcDirectory in inputMibs:
                                      'destination directory "%s": %s\r\n' % (os.path.join(srcDirectory, mibFile),
                                                                              dstDirectory, ex))
 
-                dstMibRevision = datetime.fromtimestamp(0)
+                dstMibRevision = datetime.min
 
             mibsRevisions[mibName] = dstMibRevision
 
